@@ -118,4 +118,29 @@ CLAIMS = {
         "note": "Undecided: which cell contains a coordinate that is not exactly representable, nearest-cell ties, point-wise "
                 "equality of values. Validity parity is decided under C08.",
     },
+    "C09": {
+        "technique": "static analysis: parsing of the header f-string template into key/value lines checked against the OVF 2.0 key "
+                     "list and per-axis provenance terms; writer/reader sibling agreement (permutations composed to identity, check "
+                     "value and format tables compared with the specification constants, sentinel and prefix codecs); guard "
+                     "dominance of the check-value refusal over the data read; contradiction rule for the extend_scalar flag",
+        "level": _GEN + "For C09: the written header has every required key with values from the right attribute and axis, label and "
+                 "unit counts equal valuedim, the data permutation and the reader's inverse compose to the identity, binary tables "
+                 "equal the specification's, a wrong check value or byte count is refused before data are read and the array only "
+                 "reaches the constructor through the size-checking reshape, chunks cover the array, unit and label codecs are "
+                 "inverse, extend_scalar is always qualified by nvdim == 1, every written extension is readable and the side-car "
+                 "is written/loaded under the stated conditions.",
+        "note": "Undecided: bit-identity, float32 rounding, 1e-9 text precision, foreign files beyond the implemented header "
+                "grammar, all truncation points. Trusted: OVF specification constants, struct codes, C-order flattening.",
+    },
+    "C10": {
+        "technique": "static analysis: slot exhaustiveness against the saved attribute tables, HDF5 key agreement between writer "
+                     "and reader per group, sentinel symmetry for optional slots, dtype adequacy of declared datasets, constructor "
+                     "signature conformance of the legacy reader (keywords swallowed by **kwargs), guard rules for Region(pmin=,pmax=)",
+        "level": _GEN + "For C10: every Region/Mesh/Field state slot named in the statement is written and read back under the same "
+                 "key and passed to the matching constructor keyword; None-valued vdims/unit are encoded and decoded symmetrically; "
+                 "the subregion table's dtype is derived from the subregion corners; array keeps its own dtype and validity is "
+                 "Boolean; the legacy layout is dispatched and its construction binds nvdim.",
+        "note": "Undecided: bit-identical values and h5py's own behaviour. Noted, not reported: Field's dtype slot is not restored "
+                "(int fields come back as float64 with equal values; Field equality ignores dtype).",
+    },
 }
